@@ -532,14 +532,9 @@ func ruleHistoricRoot(c *Ctx) {
 	} else {
 		c.Fail("private-layer", c.P.Pos(s.call.Pos()), "the historic trie store is not wrapped into a private cache layer: historic (read-only) execution could write into the live store")
 	}
-	// the mode follows the node's GC setting (inactive nodes must be invisible to historic reads)
-	res := f.CheckGate(f.Entry(), map[*cfgBlock]bool{s.blk: true}, Guard{ID: "too-old", Doc: "with RemoveUntraceableBlocks a height beyond the traceable window is refused", Alts: [][]string{{symBC + "GetMaxTraceableBlocks", fldBlockIndex}}},
-		symAssume("pkg/config#RemoveUntraceableBlocks", true))
-	if res.OK {
-		c.OK("retention-guard", c.P.Pos(fd.Decl.Pos()), res.Msg)
-	} else {
-		c.Fail("retention-guard", c.P.Pos(fd.Decl.Pos()), "historic VM no longer refuses heights whose state was garbage-collected: "+res.Msg, res.Path...)
-	}
+	// (a clause that required the too-old refusal to gate the constructor was removed: the property speaks about
+	// retained heights only, so the refusal is not a necessary condition - and its shape changed with fix 09f38b3)
+	ruleHistoricReaderMode(c)
 }
 
 // ---------------------------------------------------------------------------
@@ -591,4 +586,110 @@ func ruleNodeSwitch(c *Ctx) {
 		}
 	}
 	c.Floor("node-kind dispatch switches", n, 10)
+}
+
+// ruleHistoricReaderMode: a trie opened to *read a historic root* (the state-root module's GetState / FindStates /
+// SeekStates / GetStateProof and the ledger's GetTestHistoricVM) must see every node of that root that is still in
+// the store - also nodes a later block superseded, which state GC marks inactive until it collects them. The mode
+// handed to mpt.NewTrie / mpt.NewTrieStore there must therefore not carry mpt.ModeGCFlag: it is either masked with
+// `&^ mpt.ModeGCFlag` or a variable into which no constant containing the flag is ever or-ed.
+func ruleHistoricReaderMode(c *Ctx) {
+	mp := c.P.Pkg(mptPkg)
+	if mp == nil {
+		c.Lost("reader-mode.anchor", "package mpt not found")
+		return
+	}
+	flagC, ok := mp.Types.Scope().Lookup("ModeGCFlag").(*types.Const)
+	if !ok {
+		c.Lost("reader-mode.flag", "mpt.ModeGCFlag not found")
+		return
+	}
+	flag, _ := constant.Int64Val(constant.ToInt(flagC.Val()))
+	readers := [][3]string{
+		{"pkg/core/stateroot", "Module", "GetState"}, {"pkg/core/stateroot", "Module", "FindStates"}, {"pkg/core/stateroot", "Module", "SeekStates"},
+		{"pkg/core/stateroot", "Module", "GetStateProof"}, {"pkg/core", "Blockchain", "GetTestHistoricVM"},
+	}
+	n := 0
+	for _, fn := range readers {
+		fd := c.P.Func(fn[0], fn[1], fn[2])
+		if fd == nil {
+			c.Lost("reader-mode."+fn[2], fn[1]+"."+fn[2]+" not found")
+			continue
+		}
+		f := c.P.NewFuncCFG(fd)
+		info := f.Info
+		hasFlag := func(e ast.Expr) bool { // does a constant expression contain the flag bit?
+			if tv, ok := info.Types[e]; ok && tv.Value != nil {
+				if v, ok := constant.Int64Val(constant.ToInt(tv.Value)); ok {
+					return v&flag != 0
+				}
+			}
+			return false
+		}
+		for _, s := range f.CallSites("pkg/core/mpt.NewTrie", "pkg/core/mpt.NewTrieStore") {
+			if len(s.call.Args) < 2 {
+				continue
+			}
+			n++
+			key := "reader-mode." + fn[2]
+			arg := ast.Unparen(s.call.Args[1])
+			verdict, why := "", ""
+			switch x := arg.(type) {
+			case *ast.BinaryExpr:
+				if x.Op == token.AND_NOT && hasFlag(x.Y) {
+					verdict, why = "ok", "mode masked with &^ ModeGCFlag"
+				}
+			case *ast.Ident:
+				v := info.ObjectOf(x)
+				bad := ""
+				ast.Inspect(fd.Decl.Body, func(y ast.Node) bool {
+					as, ok := y.(*ast.AssignStmt)
+					if !ok {
+						return true
+					}
+					for i, lh := range as.Lhs {
+						if id, ok := lh.(*ast.Ident); ok && info.ObjectOf(id) == v && i < len(as.Rhs) {
+							ast.Inspect(as.Rhs[i], func(z ast.Node) bool {
+								if e, ok := z.(ast.Expr); ok && hasFlag(e) {
+									bad = c.P.Pos(as.Pos())
+								}
+								return true
+							})
+						}
+					}
+					return true
+				})
+				ast.Inspect(fd.Decl.Body, func(y ast.Node) bool {
+					if vs, ok := y.(*ast.ValueSpec); ok {
+						for i, nm := range vs.Names {
+							if info.Defs[nm] == v && i < len(vs.Values) && hasFlag(vs.Values[i]) {
+								bad = c.P.Pos(vs.Pos())
+							}
+						}
+					}
+					return true
+				})
+				if bad == "" {
+					verdict, why = "ok", "no constant containing ModeGCFlag is ever assigned or or-ed into the mode variable"
+				} else {
+					verdict, why = "bad", "the mode variable receives a constant containing ModeGCFlag at "+bad
+				}
+			default:
+				if hasFlag(arg) {
+					verdict, why = "bad", "the mode is a constant containing ModeGCFlag"
+				} else if tv, ok := info.Types[arg]; ok && tv.Value != nil {
+					verdict, why = "ok", "constant mode without ModeGCFlag"
+				}
+			}
+			switch verdict {
+			case "ok":
+				c.OK(key, c.P.Pos(s.call.Pos()), why)
+			case "bad":
+				c.Fail(key, c.P.Pos(s.call.Pos()), fmt.Sprintf("%s.%s opens a historic root in GC mode (%s): nodes superseded by later blocks but not yet collected are reported missing, so reads of any retained height other than the latest fail", fn[1], fn[2], why))
+			default:
+				c.Unclassified(key, c.P.Pos(s.call.Pos()), "mode expression of a shape the rule does not read")
+			}
+		}
+	}
+	c.Floor("historic-root readers", n, 5)
 }
